@@ -623,3 +623,10 @@ func (c *Client) Ancestor(hashes [][]byte) (*AncestorRsp, error) {
 	err := c.Call("Ancestor", &hashes, &r)
 	return &r, err
 }
+
+func (s *Svc) Handoff(q *HandoffReq, r *HandoffRsp) error { *r = *s.n.Handoff(q); return nil }
+func (c *Client) Handoff(q *HandoffReq) (*HandoffRsp, error) {
+	var r HandoffRsp
+	err := c.Call("Handoff", q, &r)
+	return &r, err
+}
